@@ -28,7 +28,11 @@ def main():
         prop.setup('quick')
     cases = json.load(open(inp))
     out = []
-    for item in cases:
+    for n, item in enumerate(cases):
+        if mode == 'cold':
+            # every other case: the interpreter in optimised mode (-O): what
+            # the program does must not hang on an assert statement
+            run.COLD_LOCALE = {'PYTHONOPTIMIZE': '1'} if n % 2 else None
         try:
             res = prop.run_case(item['case'])
             out.append({'i': item['i'], 'verdict': res.get('verdict'),
